@@ -162,6 +162,14 @@ def _accounts_for_names(src, tree):
     want = Counter(t.string for t in toks if t.type == xtok.NAME and t.string not in _KW and t.string.isascii())
     if not want:
         return True
+    # a backslash-newline glued to a word joins it with the next one (`a\<newline>b` is the word `ab`)
+    joined = set()
+    for i, t in enumerate(toks):
+        if t.type == xtok.ERRORTOKEN and t.string.endswith("\n"):
+            if i > 0 and toks[i - 1].end == t.start:
+                joined.add(toks[i - 1].string)
+            if i + 1 < len(toks) and toks[i + 1].start[1] == 0:
+                joined.add(toks[i + 1].string)
     try:
         text = ast.unparse(tree)
     except Exception:  # noqa: BLE001
@@ -169,7 +177,7 @@ def _accounts_for_names(src, tree):
     text = re.sub(r"__xonsh__\.\w+|__import__|globals\(\)|locals\(\)|in_boolop=True", " ", text)
     have = Counter(re.findall(r"[A-Za-z_][A-Za-z0-9_]*", text))
     for name, n in want.items():
-        if have.get(name, 0) < n and text.count(name) < n:       # (a backslash-newline may join two words into one)
+        if have.get(name, 0) < n and not (name in joined and text.count(name) >= n):
             return False
     return True
 
@@ -403,7 +411,7 @@ def _attribute(res, ref, out, script, family, c17_findings, tolerate=True):
             res.tolerated[fid] = res.tolerated.get(fid, 0) + 1
         if verdict(ref, _apply(src, rest)) is None:
             return
-        units = rest
+        # something else is wrong too: attribute the whole script (recorded shapes included), the validated path
     applied, withheld = _culprits(ref, units)
     groups = {}
     for u in withheld:
